@@ -218,6 +218,8 @@ def run_A(scn: Dict[str, Any], on, plugins=()) -> Dict[str, Any]:
     mon.ext["cfg"] = cfg
     mon.ext["probe_specs"] = scn.get("probes") or {}
     mon.attach(runner.simulator, cfg["simulation"]["sessions"])
+    if scn.get("after_setup"):
+        hostile_after_setup(scn, runner, mon, cfg)
     if scn.get("setup_only"):
         res["completed"] = True
         return _finish_result(res, mon, ctx)
@@ -233,6 +235,58 @@ def run_A(scn: Dict[str, Any], on, plugins=()) -> Dict[str, Any]:
     mon.ext["settings_unmodified"] = (cfg == pristine)
     mon.finish(completed=res["completed"])
     return _finish_result(res, mon, ctx)
+
+
+def hostile_after_setup(scn, runner, mon, cfg) -> None:
+    """between set-up and run: operations that pams must refuse, tried the way an "ensure it is configured"
+    pass of user code would (try, catch ValueError, carry on).  A refusal must leave everything as it was - the
+    run that follows is judged by the ordinary oracles against the *configured* world."""
+    from .oracles_rules import resolved_settings
+    sim = runner.simulator
+    for what in scn.get("after_setup") or []:
+        if what == "reregister_hooks":
+            for h in list(sim.event_hooks):
+                if type(h.event).__name__ == "Tap":
+                    continue
+                try:
+                    sim._add_event(h)
+                except ValueError:
+                    mon.probe("duplicate_hook_refused")
+                    continue
+                mon.viol("C13", "hook_registered_twice", {"event": h.event.name, "hook": h.hook_type, "before": h.is_before})
+        elif what == "resetup_rules":
+            for ev in list(sim.events):
+                cname = type(ev).__name__
+                if cname not in ("TradingHaltRule", "PriceLimitRule") or ev.name not in cfg:
+                    continue
+                st = {k: v for k, v in resolved_settings(cfg, ev.name).items() if k != "class"}
+                bads = [dict(st, triggerChangeRate=1)]
+                if cname == "TradingHaltRule":
+                    bads.append(dict(st, haltingTimeLength=float(st.get("haltingTimeLength", 1)) + 4.0))
+                for bad in bads:
+                    try:
+                        ev.setup(settings=bad)
+                    except ValueError:
+                        mon.probe("refused_reconfiguration_of_rule")
+                        continue
+                    mon.viol("C15" if cname == "PriceLimitRule" else "C16", "hostile_op_accepted",
+                             {"kind": "reconfiguration with a value of the wrong type", "rule": ev.name})
+        elif what == "resetup_index":
+            from pams.index_market import IndexMarket
+            for im in [m for m in sim.markets if isinstance(m, IndexMarket)]:
+                comps = im.get_components()
+                fresh = [m for m in sim.markets if m is not im and m not in comps and not isinstance(m, IndexMarket)
+                         and m.outstanding_shares is not None]
+                if not comps or not fresh or im.name not in cfg:
+                    continue
+                st = {k: v for k, v in resolved_settings(cfg, im.name).items() if k != "class"}
+                st["markets"] = [comps[0].name, fresh[0].name]  # refused at its first entry: already a component
+                try:
+                    im.setup(settings=st)
+                except ValueError:
+                    mon.probe("refused_reconfiguration_of_index")
+                    continue
+                mon.viol("C17", "duplicate_component_accepted", {"index": im.name, "via": "setup", "markets": st["markets"]})
 
 
 # ====================================================================== driver B
